@@ -690,6 +690,20 @@ def second_use(fn, light=False, suffix="_and_again_on_the_same_object"):
     return g
 
 
+def returned_local(fn):
+    """name of the local variable a repo function returns (`return <name>` as its last statement), else None.  Lets a
+    loop contract speak about 'the value the function accumulates and returns' instead of an incidental local name."""
+    import ast as _ast
+
+    node = getattr(fn, "node", None)
+    if node is None or not node.body:
+        return None
+    last = node.body[-1]
+    if isinstance(last, _ast.Return) and isinstance(last.value, _ast.Name):
+        return last.value.id
+    return None
+
+
 # ----------------------------------------------------------------------------- loop contracts
 def _stored_names(body):
     import ast as _ast
@@ -733,11 +747,14 @@ class LoopSpec:
 
     def _check(self, I, env, i, tag):
         """run the contract's check; a state that does not even have the FORM the invariant talks about (the
-        contract code cannot read it) is a failed invariant obligation, not a checker error"""
+        contract code cannot read it) gives a failed obligation of kind 'inv-form'.  Such a failure says that the LOOP
+        was restructured (renamed / moved state), not that the property is violated: the cli reports it as UNDECIDED
+        (exit 2, 'the loop contract has to be re-attached'), never as a VIOLATION -- a behaviour-preserving
+        refactoring must not raise an alarm (seeded_harmless/HC07)"""
         try:
             self.check(I, env, i, tag)
         except (Unsupported, TypeError, AttributeError, KeyError, IndexError) as e:
-            I.ctx.oblige(f"{I.ctx.ghost.get('prefix', '?')}/inv:{self.label}/{tag}:loop-state-has-the-form-the-invariant-describes", False, (), "inv", {"msg": f"{type(e).__name__}: {e}"})
+            I.ctx.oblige(f"{I.ctx.ghost.get('prefix', '?')}/inv:{self.label}/{tag}:loop-state-has-the-form-the-invariant-describes", False, (), "inv-form", {"msg": f"{type(e).__name__}: {e}"})
 
     def run_for(self, I, st, env, it):
         from .interp import SymRange, BreakEx, ContinueEx
